@@ -37,7 +37,7 @@ opkinds! {
     VMap = 14, "VMap";                 // a = 0 map(f) | 1 zip(w).map(f) | 2 map2(w, f) | 3 map3(w, u, f), identity-like f; f = closure-panic k
     VReduce = 17, "VReduce";           // v.reduce(f): a = 0 the closure keeps the accumulator | 1 keeps the new element; f = closure-panic k; terminal
     VKindConv = 18, "VKindConv";       // a = which composed kind / size conversion (adapters::KcSpec), ending in the same type
-    VArith = 48, "VArith";             // arithmetic with elements that are not Copy: a % 13 = 0 v + w | 1 v + [array] | 2 v * (tuple) | 3 v + &w | 4 v += w | 5 -v | 6 v.mul_add(w, u) | 7 Sum over a source of 1 + b%3 vectors | 8 Product likewise | 9 v.sum() | 10 v.product() | 11 &v + w | 12 &v + &w (leaf element shapes only); b bit 8 = the element's operators return their last operand instead of self; b bits 9.. = source panics at that next(); f = the element's operator impl unwinds at its f-th call (7, 8: f >= 1000: zero()/one() unwinds at call f - 1000)
+    VArith = 48, "VArith";             // arithmetic with elements that are not Copy: a % 21 = 0 v + w (b bits 16.. = which of + - * / % & | ^ << >>) | 1 v + [array] | 2 v * (tuple) | 3 v + &w | 4 v += w | 5 -v | 6 v.mul_add(w, u) | 7 Sum over a source of 1 + b%3 vectors | 8 Product likewise | 9 v.sum() | 10 v.product() | 11 &v + w | 12 &v + &w | 13..16 v.reduce_min/max/partial_min/partial_max() | 17..20 V::min/max/partial_min/partial_max(v, w) (11..20: leaf element shapes only; 13..20: f < 1000 a comparison unwinds, f >= 1000 the destructor of a loser unwinds); b bit 8 = the element's operators return their last operand instead of self; b bits 9.. = source panics at that next(); f = the element's operator impl unwinds at its f-th call (7, 8: f >= 1000: zero()/one() unwinds at call f - 1000)
     VClone = 16, "VClone";             // a = 0: let c = v.clone(); drop(c) | 1: w.clone_from(&v); drop(w)  (derive(Clone) on the container; f = panic in the f-th element clone)
     VFromSlice = 15, "VFromSlice";     // V::<u32>::from_slice(&s[..a]) (Copy elements: order and default fill only)
     // ---- on the consuming iterator ----
